@@ -24,6 +24,9 @@ ASSUMPTIONS = [
 ]
 
 EXTRA = [
+    # random initial blocks (probabilistic choice / draws before the loop)
+    "x = 1 {1/4} 5\ny = 0\nwhile y < 2:\n    y = y + 1\n    x = x + y\nend\n",
+    "x = Bernoulli(1/4)\ny = 0 {1/2} 1\nwhile true:\n    y = y + x\nend\n",
     # probabilities / parameters that depend on the current state (re-evaluated at every execution)
     "c = 0\nx = 0\nwhile true:\n    c = 1 - c\n    x = 1 {c} 0\nend\n",
     "c = 1\nx = 0\nwhile true:\n    c = 1 - c\n    x = x + 1 {c/2 + 1/4} x\nend\n",
@@ -56,7 +59,8 @@ def cases(tier, seed):
     for t in progs:
         if "p" in t.replace("types", "") and ("(p)" in t or "+ p" in t or "= p" in t or "{q}" in t):
             continue
-        out.append({"input": {"kind": "paths", "text": t}, "depth": depth})
+        out.append({"input": {"kind": "paths", "text": t}, "depth": depth,
+                    "two_samples": len(out) < 40 or "{" in t.split("while")[0] or "Bernoulli" in t.split("while")[0] or len(out) % 5 == 0})
     from ..dists import sampler_grid
 
     for fam, params in sampler_grid(tier):
@@ -102,4 +106,20 @@ def run_case(case):
     if mm:
         res["violations"].append({"sub": "paths", "detail": {"mismatches": mm[:5], "program": inp["text"]}})
         res["status"] = "violation"
+        return res
+    # two samples in one simulate() call (depth 1): samples must be independent replicas
+    if case.get("two_samples"):
+        try:
+            from ..conform import check_two_samples
+            from .. import polar
+
+            with cpu_limit(30):
+                mm2, runs2 = check_two_samples(inp["text"], 1, polar.parse(inp["text"]))
+            stats["evaluations"] += runs2
+            stats["two_sample_runs"] = runs2
+            if mm2:
+                res["violations"].append({"sub": "two-samples", "detail": {"mismatches": mm2[:3], "program": inp["text"]}})
+                res["status"] = "violation"
+        except (NotApplicable, CapHit, CpuTimeout):
+            pass
     return res
